@@ -529,7 +529,7 @@ func parseCaseSexp(g genGrammar, input []byte, extra ...*Sexp) *Sexp {
 }
 
 // genTemplate: the template family of small monotone grammars: 2-3 memoized rules, each an Any of 2-3
-// alternatives drawn from the shapes  t | N t | t N | t? N t | N N | N | eps  — every combination of
+// alternatives drawn from the shapes  t | N t | t N | t? N t | N? t | N N | N | eps  — every combination of
 // direct, indirect and hidden left recursion appears within a few thousand cases, and the reference
 // derivation table is exact for all of them.
 func genTemplate(rng *rand.Rand) (genGrammar, []byte) {
@@ -544,9 +544,12 @@ func genTemplate(rng *rand.Rand) (genGrammar, []byte) {
 			k := 2 + rng.Intn(2)
 			alts := make([]*Sexp, k)
 			for j := range alts {
-				switch rng.Intn(8) {
+				switch rng.Intn(9) {
 				case 0:
 					alts[j] = t()
+				case 8:
+					// hidden left recursion whose only route to the recursive rule is an Optional (N? t)
+					alts[j] = seq(LA("opt", n()), t())
 				case 1, 2:
 					alts[j] = seq(n(), t())
 				case 3:
